@@ -426,6 +426,11 @@ func (u *Unit) oblige(st *State, kind, anchor string, goal T, human string) *Obl
 	if u.dry > 0 {
 		return nil
 	}
+	noAssume := false
+	if kind == "assert-noassume" {
+		kind = "assert"
+		noAssume = true
+	}
 	base := fmt.Sprintf("%s/%s/%s", u.name, kind, anchor)
 	n := u.oblNames[base]
 	u.oblNames[base] = n + 1
@@ -448,7 +453,7 @@ func (u *Unit) oblige(st *State, kind, anchor string, goal T, human string) *Obl
 	// after checking, continue under the assumption that it holds (execution
 	// only continues past a panic site if it did not panic; a precondition
 	// that was checked holds for the callee's ensures)
-	if kind == "nopanic" || kind == "pre" || kind == "assert" {
+	if (kind == "nopanic" || kind == "pre" || kind == "assert") && !noAssume {
 		u.assume(st, goal)
 	}
 	return ob
